@@ -10,6 +10,7 @@ mod c04;
 mod c05;
 mod c06;
 mod c11;
+mod c20;
 mod gen;
 mod dicts;
 mod texts;
@@ -36,6 +37,7 @@ fn main() {
         "c05-record" => c05::record(rest),
         "c11-record" => c11::record(rest),
         "c06-run" => c06::run(rest),
+        "c20-run" => c20::run(rest),
         other => {
             eprintln!("unknown subcommand {}", other);
             2
